@@ -89,7 +89,7 @@ struct CmObj : Obj {
 inline void register_cm() {
   typedef CmObj::Sk Sk;
   Family f; f.name = "count_min"; f.preamble_bytes = 16;
-  f.alloc_legal_max = (size_t)8 << 30;   // the format itself allows 2^30 cells of 8 bytes: a 16-byte image can legally describe a table of gigabytes
+  f.alloc_cap = (size_t)64 << 20; f.alloc_legal_max = (size_t)8 << 30;   // the format itself allows 2^30 cells of 8 bytes: a 16-byte image can legally describe a table of gigabytes
   f.states = [](bool quick, const StateCb& cb) {
     const int hs[] = {1, 2, 5}; const int bs[] = {3, 8, 37};
     for (int hi = 0; hi < 3; ++hi) for (int bi = 0; bi < 3; ++bi) for (int n = 0; n <= (quick ? 12 : 40); ++n) {
@@ -127,6 +127,7 @@ template<class T> struct VoObj : Obj {
 template<class T> void register_varopt(const std::string& tname) {
   typedef VoObj<T> O; typedef typename O::Sk Sk; typedef typename O::SD SD;
   Family f; f.name = "var_opt_sketch<" + tname + ">"; f.preamble_bytes = 32;
+  f.alloc_cap = (size_t)64 << 20; f.alloc_legal_max = (size_t)1 << 37;   // with resize factor X1 the arrays are allocated at k+1 up front, k legal up to 2^31-2 (as the public constructor does)
   f.states = [](bool quick, const StateCb& cb) {
     const int ks[] = {1, 2, 5, 16}; const resize_factor rfs[] = {resize_factor::X1, resize_factor::X2, resize_factor::X8};
     for (int ki = 0; ki < 4; ++ki) for (int ri = 0; ri < 3; ++ri) for (int pat = 0; pat < 3; ++pat) for (uint64_t sd = 1; sd <= 2; ++sd) {
@@ -201,6 +202,7 @@ template<class T> struct EbObj : Obj {
 template<class T> void register_ebpps(const std::string& tname) {
   typedef EbObj<T> O; typedef typename O::Sk Sk; typedef typename O::SD SD;
   Family f; f.name = "ebpps<" + tname + ">"; f.preamble_bytes = 40;
+  f.alloc_cap = (size_t)64 << 20; f.alloc_legal_max = (size_t)1 << 37;   // ebpps_sketch(k) reserves k items by design
   f.states = [](bool quick, const StateCb& cb) {
     const int ks[] = {1, 2, 3, 6};
     for (int ki = 0; ki < 4; ++ki) for (int pat = 0; pat < 3; ++pat) for (uint64_t sd = 1; sd <= 2; ++sd) {
@@ -299,6 +301,7 @@ inline void register_bloom() {
   const char* kinds[] = {"bloom-owned", "bloom-writable-wrap"};
   for (int kind = 0; kind < 2; ++kind) {
     Family f; f.name = kinds[kind]; f.preamble_bytes = 32;
+    f.alloc_cap = (size_t)64 << 20; f.alloc_legal_max = (size_t)4 << 30;   // an empty filter image legally describes a bit array up to the maximum filter size
     f.states = [kind](bool quick, const StateCb& cb) {
       const uint64_t bits[] = {1, 63, 64, 65, 128, 1000}; const int hs[] = {1, 3, 7};
       for (int bi = 0; bi < 6; ++bi) for (int hi = 0; hi < 3; ++hi) for (int inv = 0; inv < 2; ++inv) for (int n = 0; n <= (quick ? 8 : 24); ++n) {
@@ -336,14 +339,15 @@ struct DensObj : Obj {
     std::string o = "k=" + str(sk.get_k()) + "|dim=" + str(sk.get_dim()) + "|n=" + str(sk.get_n()) + "|ret=" + str(sk.get_num_retained()) + "|empty=" + str(sk.is_empty()) + "|est=" + str(sk.is_estimation_mode()) + "|pts=";
     std::vector<std::string> it; for (auto i = sk.begin(); i != sk.end(); ++i) { std::string s = str((*i).second) + ":"; for (size_t d = 0; d < (*i).first.size(); ++d) s += str((*i).first[d]) + ";"; it.push_back(s); }
     std::sort(it.begin(), it.end()); for (size_t i = 0; i < it.size(); ++i) o += it[i] + ",";
-    if (!sk.is_empty()) for (int q = 0; q < 4; ++q) { Pt p = pt(q, sk.get_dim()); o += "|e=" + str(sk.get_estimate(std::vector<double>(p.begin(), p.end()))); }   // get_estimate takes a std::vector<T>
+    if (!sk.is_empty() && sk.get_dim() <= 64) for (int q = 0; q < 4; ++q) { Pt p = pt(q, sk.get_dim()); o += "|e=" + str(sk.get_estimate(std::vector<double>(p.begin(), p.end()))); }   // get_estimate takes a std::vector<T>
     return o;
   }
   Bytes ser(unsigned h) { return to_bytes(sk.serialize(h)); }
   Bytes ser_stream() { std::ostringstream os; sk.serialize(os); std::string s = os.str(); return Bytes(s.begin(), s.end()); }
   size_t ncont() { return 2; }
   std::string cont_name(size_t i) { return i == 0 ? "update x3" : "update x 3k"; }
-  void cont(size_t i) { int m = i == 0 ? 3 : 3 * sk.get_k(); for (int j = 0; j < m; ++j) sk.update(pt(1000 + next++, sk.get_dim())); }
+  // (an accepted corrupted image may carry a huge but legal k or dim: the script's own cost must not depend on them)
+  void cont(size_t i) { if (sk.get_dim() > 64) return; int m = (i == 0 || sk.get_k() > 64) ? 3 : 3 * sk.get_k(); for (int j = 0; j < m; ++j) sk.update(pt(1000 + next++, sk.get_dim())); }
 };
 inline void register_density() {
   typedef DensObj::Sk Sk;
